@@ -467,8 +467,10 @@ func c10Trees(t *testing.T, br *countingReader, r *bufio.Reader) {
 			d := NewDecoder(bio)
 			rep := map[string]string{"sub": "stream", "input_hex": hex.EncodeToString(stream), "bufio": strconv.Itoa(c.size), "chunk": strconv.Itoa(c.chunk)}
 			ok := true
+			var held []Resp
 			for i, v := range vals {
 				resp, err := d.decodeResp(0)
+				held = append(held, resp)
 				if err != nil || !c10Equal(resp, v) {
 					ev.Violate("C10|stream-value", fmt.Sprintf("value %d of stream %q decoded wrongly (%v)", i, stream, err), rep)
 					ok = false
@@ -489,6 +491,13 @@ func c10Trees(t *testing.T, br *countingReader, r *bufio.Reader) {
 				rest, _ := ioReadAll(bio)
 				if !bytes.Equal(rest, trailer) {
 					ev.Violate("C10|stream-rest", fmt.Sprintf("bytes after the values of stream %q were disturbed: %q", stream, rest), rep)
+				}
+				// values handed out earlier are queued by the caller while the reader goes on
+				for i, v := range vals {
+					if !c10Equal(held[i], v) {
+						ev.Violate("C10|stream-value-changed-later", fmt.Sprintf("value %d of stream %q was correct when returned and differs after the rest of the stream was read", i, stream), rep)
+						break
+					}
 				}
 			}
 		}
@@ -519,6 +528,60 @@ func c10Trees(t *testing.T, br *countingReader, r *bufio.Reader) {
 		for _, b := range reduced {
 			for _, c := range reduced {
 				run([]*respref.Node{a, b, c}, []int{1, 0, 2})
+			}
+		}
+	}
+	// inline (space separated) command lines in streams, each value held until the stream ends
+	inl := []string{"PING", "SET k1 v1", "get k2", "DEL a b c", "SET averyveryverylongkeyname-0123456789 and-a-long-value-0123456789"}
+	for _, sizes := range []rd{{16, 0}, {64, 0}, {4096, 0}, {64, 5}} {
+		for a := range inl {
+			for b := range inl {
+				lines := []string{inl[a], inl[b], inl[(a+b)%len(inl)]}
+				var stream []byte
+				var want []*respref.Node
+				for _, ln := range lines {
+					stream = append(stream, []byte(ln+"\r\n")...)
+					nd := &respref.Node{Kind: '*', Elems: []*respref.Node{}}
+					for _, f := range strings.Split(ln, " ") {
+						nd.Elems = append(nd.Elems, leaf('$', f))
+					}
+					want = append(want, nd)
+				}
+				// enough RESP traffic afterwards to refill every buffer size several times
+				tail := respref.Encode(&respref.Node{Kind: '*', Elems: []*respref.Node{leaf('$', "SET"), leaf('$', "k"), leaf('$', strings.Repeat("z", 9000))}})
+				stream = append(stream, tail...)
+				ns++
+				cr := &countingReader{b: stream, chunk: sizes.chunk}
+				d := NewDecoder(bufio.NewReaderSize(cr, sizes.size))
+				rep := map[string]string{"sub": "inline-stream", "input_hex": hex.EncodeToString(stream[:len(stream)-len(tail)]), "bufio": strconv.Itoa(sizes.size)}
+				var held []Resp
+				bad := false
+				for i := range lines {
+					resp, err := d.decodeResp(0)
+					if err != nil || !c10Equal(resp, want[i]) {
+						ev.Violate("C10|inline-value", fmt.Sprintf("inline command %q decoded wrongly (%v)", lines[i], err), rep)
+						bad = true
+						break
+					}
+					held = append(held, resp)
+				}
+				if bad {
+					continue
+				}
+				if _, err := d.decodeResp(0); err != nil {
+					ev.Violate("C10|inline-stream-rest", fmt.Sprintf("the RESP command after inline commands %q does not decode: %v", lines, err), rep)
+					continue
+				}
+				if d.offset != int64(len(stream)) {
+					ev.Violate("C10|stream-offset", fmt.Sprintf("after inline commands %q and one RESP command the position is %d, bytes read %d", lines, d.offset, len(stream)), rep)
+				}
+				for i := range lines {
+					if !c10Equal(held[i], want[i]) {
+						ev.Violate("C10|stream-value-changed-later", fmt.Sprintf("inline command %q was correct when returned and differs after more of the stream was read (bufio %d)", lines[i], sizes.size), rep)
+						break
+					}
+				}
+				ev.Nontrivial(ev.Hash(append([]byte{byte(sizes.size)}, stream[:64]...)))
 			}
 		}
 	}
